@@ -6,6 +6,8 @@ Import ListNotations.
 
 Section S.
 Variable nt : natives.
+Variable tco : bool.
+Notation comp q ce := (compg tco q ce None).
 Variable call : query -> venv -> jv -> result.
 Notation den := (den1 nt call).
 
@@ -76,12 +78,12 @@ Ltac callf_inv Hc :=
          match type of Hc with context [comp_args ?C ?l ?p ?s] => destruct (comp_args C l p s) as [[[? ?] ?]|]; [|discriminate] end;
          len_contra' Hc]).
 
-Lemma comp_nil : forall q ce cur pc nv sn nv' sn', comp q ce cur pc nv sn = Some ([], nv', sn') -> emptycode q = true /\ nv' = nv /\ sn' = sn.
+Lemma comp_nil : forall q ce tp cur pc nv sn nv' sn', compg tco q ce tp cur pc nv sn = Some ([], nv', sn') -> emptycode q = true /\ nv' = nv /\ sn' = sn.
 Proof.
-  qind q; intros ce cur pc nv sn nv' sn' Hc; simpl in Hc; dcomp; try (inversion Hc; subst; auto; fail);
+  qind q; intros ce tp cur pc nv sn nv' sn' Hc; simpl in Hc; dcomp; try (inversion Hc; subst; auto; fail);
     try (len_contra' Hc).
   - (* pipe *) injection Hc as H1 H2 H3. subst. apply app_eq_nil in H1. destruct H1; subst.
-    destruct (IHa _ _ _ _ _ _ _ Ec) as (E1 & -> & ->). destruct (IHb _ _ _ _ _ _ _ Ec0) as (E2 & -> & ->). simpl. rewrite E1, E2. auto.
+    destruct (IHa _ _ _ _ _ _ _ _ Ec) as (E1 & -> & ->). destruct (IHb _ _ _ _ _ _ _ _ Ec0) as (E2 & -> & ->). simpl. rewrite E1, E2. auto.
   - (* if *) destruct (is_const1 l0), (is_const1 l1); destruct l; len_contra' Hc.
   - (* try *) destruct h; simpl in *; dcomp; len_contra' Hc.
   - (* array *) destruct (array_fold q); len_contra' Hc.
@@ -89,7 +91,7 @@ Proof.
   - (* bind *) destruct l; len_contra' Hc.
   - (* binop *) binop_contra Hc.
   - (* def *) def_contra Hc.
-  - (* callf *) callf_inv Hc. discriminate.
+  - (* callf *) callf_inv Hc. destruct (tail_call tp p); discriminate.
 Qed.
 
 Lemma app_single : forall (a b : list instr) x, a ++ b = [x] -> (a = [] /\ b = [x]) \/ (a = [x] /\ b = []).
@@ -97,14 +99,14 @@ Proof.
   intros [|y a] b x H; simpl in *; auto. inversion H; subst. apply app_eq_nil in H2. destruct H2; subst. auto.
 Qed.
 
-Lemma comp_const1 : forall q ce cur pc nv sn nv' sn' k0, comp q ce cur pc nv sn = Some ([Iconst k0], nv', sn') ->
+Lemma comp_const1 : forall q ce tp cur pc nv sn nv' sn' k0, compg tco q ce tp cur pc nv sn = Some ([Iconst k0], nv', sn') ->
   forall rho v, den q rho v = ([k0], None).
 Proof.
-  qind q; intros ce cur pc nv sn nv' sn' k0 Hc rho v; simpl in Hc; dcomp; try (inversion Hc; subst; auto; fail);
+  qind q; intros ce tp cur pc nv sn nv' sn' k0 Hc rho v; simpl in Hc; dcomp; try (inversion Hc; subst; auto; fail);
     try (len_contra' Hc).
   - (* pipe *) injection Hc as H1 H2 H3. subst. destruct (app_single _ _ _ H1) as [[-> ->]|[-> ->]].
-    + destruct (comp_nil _ _ _ _ _ _ _ _ Ec) as [E1 _]. simpl. rewrite (emptycode_den _ E1), bind_single. eauto.
-    + destruct (comp_nil _ _ _ _ _ _ _ _ Ec0) as [E2 _]. simpl. rewrite (IHa _ _ _ _ _ _ _ _ Ec). unfold bind. simpl.
+    + destruct (comp_nil _ _ _ _ _ _ _ _ _ Ec) as [E1 _]. simpl. rewrite (emptycode_den _ E1), bind_single. eauto.
+    + destruct (comp_nil _ _ _ _ _ _ _ _ _ Ec0) as [E2 _]. simpl. rewrite (IHa _ _ _ _ _ _ _ _ _ Ec). unfold bind. simpl.
       rewrite (emptycode_den _ E2). reflexivity.
   - (* iter *) injection Hc as H1 H2 H3. destruct (app_single _ _ _ H1) as [[_ H]|[_ H]]; discriminate.
   - (* index *) injection Hc as H1 H2 H3. destruct (app_single _ _ _ H1) as [[_ H]|[_ H]]; discriminate.
@@ -117,7 +119,7 @@ Proof.
   - (* bind *) destruct l; len_contra' Hc.
   - (* binop *) binop_contra Hc.
   - (* def *) def_contra Hc.
-  - (* callf *) callf_inv Hc. discriminate.
+  - (* callf *) callf_inv Hc. unfold tail_call in Hc. destruct tp as [[p' [[|]|]]|]; try destruct (Nat.eqb p' p); discriminate.
 Qed.
 
 Lemma bind_list_ext' : forall r (f g : jv -> result), (forall w, f w = g w) -> bind r f = bind r g.
@@ -160,20 +162,20 @@ Proof.
     destruct (comp_mono _ _ _ _ _ _ _ _ _ Ec) as [Ma _]. destruct (comp_mono _ _ _ _ _ _ _ _ _ Ec0) as [Mb _].
     assert (n = nv) by lia. subst n.
     destruct (app_single _ _ _ H1) as [[-> ->]|[-> ->]].
-    + destruct (comp_nil _ _ _ _ _ _ _ _ Ec) as [E1 _].
+    + destruct (comp_nil _ _ _ _ _ _ _ _ _ Ec) as [E1 _].
       destruct (IHb _ _ _ _ _ _ _ Ec0) as [[Hs Hd]|(f & p & nf & -> & Hl & Hd)].
       * left. split; auto. intros rho v. rewrite (den_pipe_l _ _ E1). auto.
       * right. exists f, p, nf. split; [auto|]. split; [auto|]. intros rho v. rewrite (den_pipe_l _ _ E1). auto.
-    + destruct (comp_nil _ _ _ _ _ _ _ _ Ec0) as [E2 _].
+    + destruct (comp_nil _ _ _ _ _ _ _ _ _ Ec0) as [E2 _].
       destruct (IHa _ _ _ _ _ _ _ Ec) as [[Hs Hd]|(f & p & nf & -> & Hl & Hd)].
       * left. split; auto. intros rho v. rewrite (den_pipe_r _ _ E2). auto.
       * right. exists f, p, nf. split; [auto|]. split; [auto|]. intros rho v. rewrite (den_pipe_r _ _ E2). auto.
   - (* empty *) inversion Hc; subst. left. split; auto.
   - (* iter *) injection Hc as H1 H2 H3. subst. destruct (app_single _ _ _ H1) as [[-> H]|[_ H]]; [|discriminate].
-    inversion H; subst. destruct (comp_nil _ _ _ _ _ _ _ _ Ec) as [E1 _]. left. split; auto.
+    inversion H; subst. destruct (comp_nil _ _ _ _ _ _ _ _ _ Ec) as [E1 _]. left. split; auto.
     intros rho v. simpl. rewrite (emptycode_den _ E1), bind_single. reflexivity.
   - (* index *) injection Hc as H1 H2 H3. subst. destruct (app_single _ _ _ H1) as [[-> H]|[_ H]]; [|discriminate].
-    inversion H; subst. destruct (comp_nil _ _ _ _ _ _ _ _ Ec) as [E1 _]. left. split; auto.
+    inversion H; subst. destruct (comp_nil _ _ _ _ _ _ _ _ _ Ec) as [E1 _]. left. split; auto.
     intros rho v. simpl. rewrite (emptycode_den _ E1), bind_single. reflexivity.
   - (* if *) destruct (is_const1 l0), (is_const1 l1); destruct l; len_contra' Hc.
   - (* try *) destruct h; simpl in *; dcomp; len_contra' Hc.
@@ -216,23 +218,28 @@ Proof.
   split; [reflexivity|]. split; [exact Ea|]. split; reflexivity.
 Qed.
 
-Lemma comp_def_inv : forall f ps body rest ce cur pc nv sn cq nv' sn',
-  comp (QDef f ps body rest) ce cur pc nv sn = Some (cq, nv', sn') ->
+Lemma comp_def_inv : forall f ps body rest ce tp cur pc nv sn cq nv' sn',
+  compg tco (QDef f ps body rest) ce tp cur pc nv sn = Some (cq, nv', sn') ->
   cur < sn /\ ce_lt ce sn = true /\ exists cb nvb s1 cr,
     let ce' := add_fun ce f (S pc) (length ps) in
     let pre := prelude sn ps in
-    comp body (add_env (fun_env ce') (param_env sn ps)) sn (pc + 2 + length pre) (param_slots ps) (S sn) = Some (cb, nvb, s1) /\
-    comp rest ce' cur (pc + 2 + length pre + length cb + 1) nv s1 = Some (cr, nv', sn') /\
+    compg tco body (add_env (fun_env ce') (param_env sn ps)) (tl_body tco (S pc) ps body) sn (pc + 2 + length pre) (param_slots ps) (S sn) = Some (cb, nvb, s1) /\
+    compg tco rest ce' tp cur (pc + 2 + length pre + length cb + 1) nv s1 = Some (cr, nv', sn') /\
     cq = Ijump (pc + 2 + length pre + length cb + 1) :: Iscope sn nvb (length ps) :: pre ++ cb ++ Iret :: cr.
 Proof.
-  intros f ps body rest ce cur pc nv sn cq nv' sn' Hc. cbn -[Nat.add Nat.ltb ce_lt prelude param_env param_slots] in Hc.
+  intros f ps body rest ce tp cur pc nv sn cq nv' sn' Hc. cbn -[Nat.add Nat.ltb ce_lt prelude param_env param_slots] in Hc.
   destruct (Nat.ltb_spec cur sn) as [Hlt|]; [|discriminate]. split; [exact Hlt|].
   destruct (ce_lt ce sn) eqn:Hce; [|discriminate]. split; [reflexivity|]. cbn [andb] in Hc.
-  match type of Hc with context [comp body ?ce0 ?c0 ?p0 ?n0 ?s0] =>
-    destruct (comp body ce0 c0 p0 n0 s0) as [[[cb nvb] s1]|] eqn:Eb; [|discriminate] end.
-  match type of Hc with context [comp rest ?ce0 ?c0 ?p0 ?n0 ?s0] =>
-    destruct (comp rest ce0 c0 p0 n0 s0) as [[[cr nv2] s2]|] eqn:Er; [|discriminate] end.
+  match type of Hc with context [compg tco body ?ce0 ?t0 ?c0 ?p0 ?n0 ?s0] =>
+    destruct (compg tco body ce0 t0 c0 p0 n0 s0) as [[[cb nvb] s1]|] eqn:Eb; [|discriminate] end.
+  match type of Hc with context [compg tco rest ?ce0 ?t0 ?c0 ?p0 ?n0 ?s0] =>
+    destruct (compg tco rest ce0 t0 c0 p0 n0 s0) as [[[cr nv2] s2]|] eqn:Er; [|discriminate] end.
   inversion Hc; subst. exists cb, nvb, s1, cr. cbv zeta. auto.
 Qed.
 
 End S.
+Arguments comp_nil {tco} q ce {tp}.
+Arguments comp_const1 nt {tco} call q ce {tp}.
+Arguments comp_single nt {tco}.
+Arguments comp_binop_inv {tco}.
+Arguments comp_def_inv {tco} f ps body rest ce {tp}.
